@@ -3,11 +3,44 @@
 file stays valid). Run: python3 tools/mkmanifest.py"""
 import json, subprocess
 
+T = "contract-based deductive verification (govc: weakest preconditions over go/ssa, z3/cvc5)"
 CLAIMED = {
+ "C01": dict(
+   text="Proof: authorizerFor (the only path from a token to an authorizer) is under a contract stating acceptance <=> root-signed authority link, every later link under the previously announced key, and the closing proof (next secret matching the last announced key, or seal signature over the last block); the loop invariant carries the chain; newBiscuit and Append are proved to produce exactly such links (payload = block bytes, le32(algorithm), next key).",
+   note="Assumed: ed25519 (uninterpreted edVerify/edSign/key derivation with sign-then-verify correctness; EUF-CMA unforgeability is not expressible as a contract), proto.Marshal, binary.PutUint32 (contracts/extern_crypto.spec); wfToken as established by Unmarshal (its decode-side contract is part of C10). Not decided: mutation rejection beyond the iff (it follows from the iff plus EUF-CMA).",
+   technique=T, ref="4/C01"),
+ "C05": dict(
+   text="Proof for the leaf operations of the engine: Term.Equal (all 7 implementations against one interface contract), Predicate.Equal/Match/Clone, FactSet.Insert/InsertAll (set semantics, no-growth => subset), advanceIndexes (lexicographic successor with carry), MatchedVariables Insert/Complete/Clone, World AddFact/AddRule/ResetRules/Clone.",
+   note="Not yet under contract (listed in evidence as not_decided): Rule.Apply, combine/combine$1 (join enumeration) and World.Run/Run$1 (fixpoint loop) - they use goroutines and channels; so the least-fixpoint statement itself is not decided yet, only the operations it is built from.",
+   technique=T, ref="4/C05"),
  "C06": dict(
-   text="Proof: every Eval of the operator table, the evaluation stack and the symbol-table functions they use are under contract; each row of the table is an ensures clause discharged for all operand values (64-bit wrap modelled exactly), together with every panic site (nil, index, type assertion, division) in those functions.",
-   note="Assumed: contracts of math/big, strings, regexp, fmt (contracts/extern.spec); closed world for datalog.Term; regex semantics uninterpreted. Not decided: Expression.Evaluate's full postfix semantics (see DESIGN.md).",
-   technique="contract-based deductive verification (govc: WP over go/ssa, z3/cvc5)", ref="4/C06"),
+   text="Proof: every Eval of the operator table, Evaluate, the evaluation stack and the symbol-table functions they use are under contract; each row of the table is an ensures clause discharged for all operand values (64-bit wrap modelled exactly), together with every panic site (nil, index, type assertion, division, unhashable map key) in those functions. All 20 operator implementations are also verified against the interface-method contracts used by Evaluate.",
+   note="Assumed: contracts of math/big, strings, regexp, fmt, bytes (contracts/extern.spec); closed world for datalog.Term/Op; regex and substring semantics uninterpreted. Not decided: completeness of Set.Intersect/Union results (soundness is proved), and Evaluate's full postfix semantics beyond well-formedness, error cases and one-element expressions.",
+   technique=T, ref="4/C06"),
+ "C07": dict(
+   text="Proof (partial): token-to-wire converters are under contract for totality on well-formed content, fresh results and no writes to existing memory; symbol-table Insert/Str/Var/Clone/Extend/IsDisjoint have full functional contracts (default table below 1024, offsets, prefix preservation).",
+   note="Not yet under contract: the wire-to-token direction, the literal operator/term tag tables and the version gate (planned); protobuf encode/decode is an assumed contract. The round-trip statement is therefore not decided yet.",
+   technique=T, ref="4/C07"),
+ "C08": dict(
+   text="Proof (partial): Append and Seal are proved to write nothing that existed before the call (strict frame: every store, map update, in-place append and callee effect is an obligation against 'modifies nothing'), SymbolTable.Clone is proved to own a fresh backing array, and the new token's envelope is proved to carry the parent's signed blocks unchanged.",
+   note="Not yet under contract for this property: CreateBlock, block builders, GetBlockID, Authorize, printing; so only the append/seal part of the statement is decided.",
+   technique=T, ref="4/C08"),
+ "C10": dict(
+   text="Proof: a panic-freedom sweep over every function under contract (95 functions): each nil dereference, index, slice bound, type assertion, division, unhashable map key, nil map write, explicit panic and panicking library precondition (ed25519 key/seed lengths) is an obligation proved under the invariants that decoding and the builders establish (wfToken, blockWF, termWF...).",
+   note="Functions not yet under contract are not covered (Unmarshal's decode path, Authorize, printing, parser): listed in evidence. Out-of-memory and stack depth are not panics a contract can see. Dependencies are trusted to satisfy their assumed contracts.",
+   technique=T, ref="4/C10"),
+ "C16": dict(
+   text="Proof: the key-selection closures are proved against the statement (id present and registered -> that key; id present and unknown -> ErrNoPublicKeyAvailable, never the default; no id -> default or the error); newBiscuit stores the identifier given by the options; Append and Seal are proved to carry the parent's identifier (value semantics of *uint32).",
+   note="Assumed: protobuf keeps the optional field across serialisation. Not yet under contract: AuthorizerFor's use of the selected key and Build's passing of the option (planned).",
+   technique=T, ref="4/C16"),
+ "C19": dict(
+   text="Proof (partial) by strict write frames instead of schedule exploration: authorizerFor, Append and Seal are proved to perform no write to memory that existed before the call (including in-place appends into spare capacity of shared slices), and SymbolTable.Clone is proved to own its capacity; without writes to shared locations no interleaving can race on them.",
+   note="Not yet under contract for this property: Authorize/Query, printing, GetBlockID, CreateBlock and builders, Serialize; sharing a parser.Parser is an assumption about participle. Assumed: library calls on shared read-only arguments are safe for concurrent use.",
+   technique=T, ref="4/C19"),
+ "C20": dict(
+   text="Proof: with ed25519.GenerateKey's contract (error => nil keys; success => 32/64-byte keys with pub = pubOf(priv)), newBiscuit and Append are proved to return no token on error, never to reach Seed()/slicing with a nil key (panic obligations), and to store the seed whose public key they announce and sign.",
+   note="Assumed: GenerateKey fails iff the reader fails or runs dry before 32 bytes (Go 1.23 behaviour; the 'every k < 32' quantifier lives inside that contract). New/Build/WithRNG plumbing of the reader is not yet under contract.",
+   technique=T, ref="4/C20"),
 }
 
 NOT_YET = "check not built yet in this commit (contracts for the functions it depends on are still being written); see DESIGN.md section 4 for the plan"
